@@ -169,7 +169,7 @@ def validate(ctx, events, shards=14):
     for e in events:
         if e["ev"] == "end":
             e2 = {k: e[k] for k in ("ev", "outcome", "same", "err", "calls", "nodbg", "nodbgErr", "nodbgSame", "scribble", "scribbleErr",
-                                    "scribbleSameSnapshots", "scribbleSameCalls") if k in e}
+                                    "scribbleSameSnapshots", "scribbleSameCalls", "fanout", "fanoutErr", "fanoutSameCalls") if k in e}
             slim.append(e2)
         elif e["ev"] == "begin":
             slim.append({k: e[k] for k in ("ev", "unlock", "lock", "genesis", "f", "ver", "lt", "seq", "sx") if k in e})
@@ -366,4 +366,81 @@ def mutated_vectors(ctx, n):
         if has_sigop(u) or has_sigop(l):
             continue
         out.append(mkcase("mut%d" % k, bytes(u), bytes(l), fl, "mutated-vector"))
+    return out
+
+
+def p2sh_cases(ctx, n):
+    """P2SH-shaped locking scripts (HASH160 <20> EQUAL) with matching / non-matching redeem scripts, push-only and
+    non-push-only unlocking scripts, with and without the P2SH / CLEANSTACK / Genesis flags"""
+    import hashlib
+    rng = random.Random(ctx.seed * 2671 + 5)
+    out = []
+    redeems = [A.parse(x) for x in ["1", "0", "2 3 ADD 5 EQUAL", "DUP", "IF 1 ELSE 0 ENDIF", "1 1", "RETURN", "DEPTH 0 EQUAL", "NOP", "SIZE 0 EQUAL",
+                                    "1 TOALTSTACK", "FROMALTSTACK", "0x4c", "VERIF", "CODESEPARATOR 1", "16 1ADD 17 EQUAL VERIFY 1"]]
+    for k in range(n):
+        redeem = rng.choice(redeems) if rng.random() < 0.7 else rand_script(rng, rng.randint(1, 6))
+        if has_sigop(redeem):
+            continue
+        h = hashlib.new("ripemd160", hashlib.sha256(redeem).digest()).digest()
+        if rng.random() < 0.15:
+            h = bytes(20)                                      # hash mismatch
+        lock = b"\xa9\x14" + h + b"\x87"
+        args = b"".join(minimal_push(rand_item(rng)) for _ in range(rng.randint(0, 3)))
+        unlock = args + A.push(redeem)
+        r = rng.random()
+        if r < 0.1:
+            unlock = args + b"\x61" + A.push(redeem)           # not push only
+        elif r < 0.15:
+            unlock = args                                       # no serialized script
+        fl = 0
+        for name, p in (("P2SH", 0.8), ("CLEANSTACK", 0.3), ("UTXO_AFTER_GENESIS", 0.3), ("SIGPUSHONLY", 0.2), ("MINIMALDATA", 0.2), ("MINIMALIF", 0.2)):
+            if rng.random() < p:
+                fl |= A.FLAGBITS[name]
+        if fl & A.FLAGBITS["CLEANSTACK"]:
+            fl |= A.FLAGBITS["P2SH"]
+        out.append(mkcase("p2sh%d" % k, unlock, lock, fl, "p2sh"))
+    return out
+
+
+def limit_cases(ctx):
+    """programs sitting on each per-era limit and one past it"""
+    G = A.FLAGBITS["UTXO_AFTER_GENESIS"]
+    out = []
+    k = 0
+
+    def add(u, l, tag):
+        nonlocal k
+        for g in (0, G):
+            out.append(mkcase("lim%d" % k, u, l, g, "limit-" + tag))
+            k += 1
+    for n in (519, 520, 521):                                   # element size
+        add(b"", A.push(b"\x01" * n) + b"\x75\x51", "element")
+        add(b"", b"\x00\x63" + A.push(b"\x01" * n) + b"\x68\x51", "element-unexecuted")
+        add(b"", A.push(b"\x01" * (n - 260)) + A.push(b"\x02" * 260) + b"\x7e\x75\x51", "cat")
+        add(b"", b"\x51" + A.push(A.scriptnum(n)) + b"\x80\x75\x51", "num2bin")
+    for n in (499, 500, 501):                                   # op count
+        add(b"", b"\x61" * (n - 1) + b"\x51\x61"[0:0] + b"\x51", "opcount")
+        add(b"", b"\x00\x63" + b"\x61" * (n - 3) + b"\x68\x51", "opcount-unexecuted")
+    for n in (998, 999, 1000, 1001):                            # stack depth (data + alt)
+        add(b"", b"\x51" * n, "stack")
+        add(b"", b"\x51" * (n - 1) + b"\x6b" + b"\x51", "stack-alt")
+    for n in (9999, 10000, 10001):                              # script size
+        add(b"", b"\x51" + b"\x61" * 100 + (A.push(b"\x00" * 500) + b"\x75") * 19 + b"\x00" * 0 + b"\x61" * 0, "size-base")
+        body = A.push(b"\x00" * 500) + b"\x75"
+        s = b"\x51"
+        while len(s) + len(body) <= n:
+            s += body
+        s += b"\x00\x75" * ((n - len(s)) // 2)
+        if len(s) < n:
+            s += b"\x61" * (n - len(s))
+        add(b"", s, "size")
+        add(s, b"\x51", "size-unlock")
+    for n in (3, 4, 5, 8, 9):                                   # numeric operand length
+        v = b"\x01" * (n - 1) + b"\x01"
+        add(b"", A.push(v) + b"\x8b\x75\x51", "numlen")
+        add(b"", A.push(v) + A.push(v) + b"\x93\x75\x51", "numlen-add")
+        add(b"", A.push(v) + b"\x81\x75\x51", "bin2num")
+    for n in (20, 21):                                          # multisig key count without tx context is unmodelled: use PICK depth
+        add(b"", b"\x51" * n + A.push(A.scriptnum(n - 1)) + b"\x79", "pick")
+        add(b"", b"\x51" * n + A.push(A.scriptnum(n)) + b"\x79", "pick-out-of-range")
     return out
